@@ -368,4 +368,13 @@ SzLaws == (Scope = "sz" /\ done) =>
     /\ (b = <<"q", 1, -1>> /\ a[1] # "nan" /\ ~SignNeg(a) => p = MSqrt(a))                         \* only then is pow(x, 1/2) sqrt(x)
     /\ (b = <<"q", 1, -1>> /\ a = NegZero => p = Def(<<PosZero>>) /\ MSqrt(a) = Def(<<NegZero>>))
     /\ (b = <<"q", 1, -1>> /\ a = Inf(-1) => p = Def(<<Inf(1)>>) /\ MSqrt(a) = Def(<<NaN>>))
+-----------------------------------------------------------------------------
+(* the constant of deg / rad and the big-natural arithmetic that judges them (checked once) *)
+ASSUME BigMul(BigOf(123456789), BigOf(987654321)) = <<4997, 8186, 1342, 610, 27>>
+ASSUME BigLe(BigOf(5), BigOf(8192)) /\ ~BigLe(BigOf(8192), BigOf(5)) /\ BigShl(BigOf(3), 14) = BigOf(49152)
+(* RADIANS_PER_DEGREE is the correctly rounded quotient of the double PI by 180: |PI - 180 c| <= 180 ulp(c)/2 *)
+ASSUME WithinHalf(PiM, PiE, BigMul(RadPerDegM, BigOf(180)), RadPerDegE, BigOf(90), RadPerDegE, FALSE)
+(* and rad(180) = PI, deg(PI) is 180 within one rounding *)
+ASSUME DegRadOK(FALSE, <<"n", 180>>, <<"w", FALSE, PiM, PiE>>)
+ASSUME ~DegRadOK(FALSE, <<"n", 180>>, <<"w", FALSE, BigAdd(PiM, <<1>>), PiE>>)
 =============================================================================
